@@ -169,6 +169,11 @@ Definition is_cancelled (x : cell) : bool := match x with CCancelled => true | _
 
 Definition e_nostart : Z := 50.        (* RuntimeError("Task exited without calling task_status.started()") *)
 Definition is_base (e : Z) : bool := Z.leb 100 e.   (* exception codes >= 100: BaseException, not Exception *)
+(* distinguished code: an Exception whose truth value is False (__len__() == 0 or __bool__() False).  The portal
+   treats it like every other exception -- since dbf6f53 (F47) every test on an exception object is `is not None`
+   (start_task's task_done) and AnyIO unwraps its futures with future_outcome(); the thread-side unwrapping itself
+   (Future.result() in the caller's thread) is outside this model and is checked by the harness monitors. *)
+Definition e_falsy : Z := 4.
 
 (* start_task's `task_done(future)` done-callback of the call's future (from_thread.py:410-420) *)
 Definition status_on_done (c : call) : call :=
